@@ -305,6 +305,23 @@ theorem hframe_returned {s0 s : S} (h : HSame s0 s) (r : Ret) : HFrame s0 (retur
   · exact hframe_finishPass (by exact ⟨h.aq, h.eq, h.ipc, h.wf, h.killed, h.kind, h.runq⟩) _
   · exact hframe_of_same ⟨h.aq, h.eq, h.ipc, h.wf, h.killed, h.kind, h.runq⟩
 
+theorem hsame_returned (s : S) (r : Ret) : HSame s (returned s r) := by
+  unfold returned
+  split
+  · exact ⟨rfl, rfl, rfl, rfl, rfl, rfl, id⟩
+  · exact ⟨rfl, rfl, rfl, rfl, rfl, rfl, id⟩
+
+theorem hsame_bodyStep (s : S) : HSame s (bodyStep s) := by
+  unfold bodyStep
+  split
+  · exact hsame_returned _ _
+  · exact ⟨rfl, rfl, rfl, rfl, rfl, rfl, id⟩
+  · exact ⟨rfl, rfl, rfl, rfl, rfl, rfl, id⟩
+
+theorem HSame.trans {a b c : S} (h1 : HSame a b) (h2 : HSame b c) : HSame a c :=
+  ⟨h2.aq.trans h1.aq, h2.eq.trans h1.eq, h2.ipc.trans h1.ipc, h2.wf.trans h1.wf, h2.killed.trans h1.killed,
+   h2.kind.trans h1.kind, fun hr => h2.runq (h1.runq hr)⟩
+
 theorem hframe_bodyOf {s0 s : S} (h : HSame s0 s) (c : Fid) : HFrame s0 (bodyOf s c) := by
   unfold bodyOf
   split
@@ -316,6 +333,7 @@ theorem hframe_bodyOf {s0 s : S} (h : HSame s0 s) (c : Fid) : HFrame s0 (bodyOf 
     · refine hframe_returned (by refine ⟨h.aq, h.eq, h.ipc, h.wf, h.killed, h.kind, fun hr => ?_⟩; simp only [tok_k]; rw [runq_fibreTimeout, runq_fibreTimeout]; exact h.runq hr) _
     · refine hframe_returned (by refine ⟨h.aq, h.eq, h.ipc, h.wf, h.killed, h.kind, fun hr => ?_⟩; simp only [tok_k]; rw [runq_fibreTimeout]; exact h.runq hr) _
   · exact hframe_returned h _
+  · exact hframe_of_same (h.trans (hsame_bodyStep s))
 
 theorem bodyOf_handler {s : S} {c : Fid} (h : s.kind c = .handler) : (bodyOf s c).mpc = .hRecv := by
   unfold bodyOf; rw [h]
@@ -389,6 +407,25 @@ theorem hframe_afterDrain {s0 s : S} (h : HSame s0 s) (hq : QOk s.k) (c : Cont) 
   | pass2 c =>
     exact hframe_afterUpdate (by exact ⟨h.aq, h.eq, h.ipc, h.wf, h.killed, h.kind, fun hr => (mem_runq_makeRunnable c _).mpr (Or.inl (h.runq hr))⟩)
       (qok_makeRunnable hq c)
+  | brun f =>
+    refine hframe_of_same (HSame.trans (b := brunPre s f) ?_ (hsame_bodyStep _))
+    exact ⟨h.aq, h.eq, h.ipc, h.wf, h.killed, h.kind, fun hr => (mem_runq_makeRunnable f _).mpr (Or.inl (h.runq hr))⟩
+  | bkill f =>
+    show HFrame s0 (bodyStep (bkillPre s f))
+    have hb := hsame_bodyStep (bkillPre s f)
+    have hk : (bkillPre s f).handlerKilled = (s.handlerKilled || decide (f = HANDLER)) := rfl
+    have hrq : (bkillPre s f).k.runq = s.k.runq.erase f := rfl
+    refine ⟨hb.aq.trans h.aq, hb.eq.trans h.eq, hb.ipc.trans h.ipc, hb.wf.trans h.wf, fun e => ?_, fun _ hr => ?_⟩
+    · rw [hb.killed, hk, Bool.or_eq_false_iff] at e
+      rw [← h.killed]; exact e.1
+    · by_cases hf : f = HANDLER
+      · right; right
+        rw [hb.killed, hk]
+        simp [hf]
+      · left
+        apply hb.runq
+        rw [hrq]
+        exact (List.mem_erase_of_ne (Ne.symm hf)).mpr (h.runq hr)
 
 theorem not_running_of_mpc {s : S} (h1 : s.mpc ≠ .hRecv) (h2 : s.mpc ≠ .hRecvd) (h3 : s.mpc ≠ .hRel) (h4 : s.mpc ≠ .hReld) :
     ¬ HRunning s := by
@@ -577,5 +614,6 @@ theorem reach_inv5 {s : S} (hr : Reach s) : Inv5 s := by
   | nops k _ ih => exact inv5_same ih rfl rfl rfl rfl rfl rfl rfl
   | newItem _ ih => exact inv5_same ih rfl rfl rfl rfl rfl rfl rfl
   | noYields _ ih => exact inv5_same ih rfl rfl rfl rfl rfl rfl rfl
+  | setBody b r _ ih => exact inv5_same ih rfl rfl rfl rfl rfl rfl rfl
   | observe o _ _ ih => exact inv5_same ih rfl rfl rfl rfl rfl rfl rfl
 end Librfn.Isr.L
